@@ -70,7 +70,7 @@ fn challenge_outputs(log: &[Event]) -> Vec<Vec<u8>> {
 
 fn run_case<G: AffineRepr>(env: &Env<G>, c: &Case) -> CaseOut {
     let mut o = CaseOut::new();
-    let prog = gen_program(c.seed, &c.cfg);
+    let prog = if c.cfg.max_terms >= 9990 { special_program(c.cfg.max_terms) } else { gen_program(c.seed, &c.cfg) };
     let mut ext = RecordingRng::new(ChaChaRng::seed_from_u64(c.seed ^ 0xe1));
     let po: ProveOut<G> = prove_program_rng::<G, _>(&prog, &[], &env.pc, &env.bp, &mut ext);
     let proof = match &po.proof {
@@ -340,11 +340,57 @@ fn run_case<G: AffineRepr>(env: &Env<G>, c: &Case) -> CaseOut {
     o
 }
 
+/// Hand-written circuits whose witness is degenerate in a way that must not weaken the blinding:
+/// second-phase gates whose outputs (or all wires) are zero, zero first-phase wires, zero commitments.
+fn special_program(kind: usize) -> Program {
+    use crate::dsl::{Fix, Lx, Op, Val};
+    use crate::sc::Sc;
+    let zero = || Val::Lit(Sc::I(0));
+    let mut ops = vec![Op::Commit { v: Sc::I(0), blind: Sc::R(3) }];
+    match kind {
+        9990 => {
+            // phase 2 = one half-allocated gate: right wire and output are zero
+            ops.push(Op::AllocMul { l: Val::Lit(Sc::I(2)), r: Val::Lit(Sc::I(3)) });
+            ops.push(Op::Randomized(vec![Op::Challenge { label: 0 }, Op::Allocate { val: Val::Lit(Sc::Ch(0)) }]));
+        }
+        9991 => {
+            // phase 2 gates with zero outputs (one factor zero)
+            ops.push(Op::AllocMul { l: Val::Lit(Sc::I(2)), r: Val::Lit(Sc::I(3)) });
+            ops.push(Op::Randomized(vec![
+                Op::Challenge { label: 0 },
+                Op::AllocMul { l: zero(), r: Val::Lit(Sc::Ch(0)) },
+                Op::AllocMul { l: Val::Lit(Sc::Ch(0)), r: zero() },
+                Op::Multiply { l: Lx::V(0), r: Lx::Sub(Box::new(Lx::V(0)), Box::new(Lx::K(Sc::Ch(0)))) },
+            ]));
+        }
+        9992 => {
+            // everything zero in phase 2, nothing in phase 1
+            ops.push(Op::Randomized(vec![Op::Challenge { label: 1 }, Op::AllocMul { l: zero(), r: zero() }, Op::AllocMul { l: zero(), r: zero() }]));
+        }
+        9993 => {
+            // all-zero first phase
+            ops.push(Op::AllocMul { l: zero(), r: zero() });
+            ops.push(Op::AllocMul { l: zero(), r: zero() });
+            ops.push(Op::Constrain { lc: Lx::V(1), fix: Fix::AsIs });
+        }
+        _ => {
+            // first-phase outputs zero, phase 2 with gates
+            ops.push(Op::AllocMul { l: zero(), r: Val::Lit(Sc::I(5)) });
+            ops.push(Op::Allocate { val: Val::Lit(Sc::I(7)) });
+            ops.push(Op::Randomized(vec![Op::Challenge { label: 0 }, Op::AllocMul { l: Val::Lit(Sc::Ch(0)), r: Val::Lit(Sc::I(2)) }]));
+        }
+    }
+    Program { tlabel: 0, pre: vec![], ops }
+}
+
 fn cases(ctx: &Ctx, curve: &str) -> Vec<Case> {
     let mut r = R::new(ctx.sub_seed(9, curve.len() as u64));
     let mut v = vec![];
     for cfg in [GenCfg::simple(0, 0), GenCfg::simple(1, 0), GenCfg::simple(2, 0), GenCfg::simple(3, 0), GenCfg::simple(1, 1), GenCfg::simple(2, 3), GenCfg::simple(0, 2), GenCfg { m: 0, ..GenCfg::simple(2, 1) }, GenCfg { pending1: true, ..GenCfg::simple(3, 2) }] {
         v.push(Case { curve: curve.into(), seed: r.u64(), cfg, taint: true });
+    }
+    for kind in 9990..=9994usize {
+        v.push(Case { curve: curve.into(), seed: r.u64(), cfg: GenCfg { max_terms: kind, ..GenCfg::simple(0, 0) }, taint: true });
     }
     let n = ctx.n(150, 3000);
     for i in 0..n {
